@@ -396,7 +396,7 @@ func init() {
 			pop := c.Fn("weightedFairQueueingPendingQueuePolicy.Pop")
 			okV := false
 			for _, a := range c.storesIn(pop, vt) {
-				if call, ok := isMathCall(a.Val, "Max"); ok && (IsLoadOf(vt)(call.Call.Args[0]) || IsLoadOf(vt)(call.Call.Args[1])) {
+				if clockMovesForward(a, vt) {
 					okV = true
 				}
 			}
@@ -407,7 +407,7 @@ func init() {
 			for _, fn := range c.P.Funcs {
 				for _, a := range c.storesIn(fn, vt) {
 					okM := false
-					if call, ok := isMathCall(a.Val, "Max"); ok && (IsLoadOf(vt)(call.Call.Args[0]) || IsLoadOf(vt)(call.Call.Args[1])) {
+					if clockMovesForward(a, vt) {
 						okM = true
 					}
 					if k, ok := a.Val.(*ssa.Const); ok && k.Value != nil && k.Value.String() == "0" {
@@ -544,4 +544,23 @@ func divisorNonZero(v ssa.Value) bool {
 		}
 	}
 	return len(leaves) > 0
+}
+
+// clockMovesForward: the stored value is max(clock, x) — math.Max, the builtin, or
+// a store of x taken only when x > clock (or x >= clock).
+func clockMovesForward(a Access, vt *types.Var) bool {
+	if call, ok := isMathCall(a.Val, "Max"); ok && (IsLoadOf(vt)(call.Call.Args[0]) || IsLoadOf(vt)(call.Call.Args[1])) {
+		return true
+	}
+	if call, ok := unconv(a.Val).(*ssa.Call); ok {
+		if b, isB := call.Call.Value.(*ssa.Builtin); isB && b.Name() == "max" {
+			for _, x := range call.Call.Args {
+				if IsLoadOf(vt)(x) {
+					return true
+				}
+			}
+		}
+	}
+	v := a.Val
+	return DominatedByExt(a.Instr, CmpCond(token.GTR, SameExpr(v), IsLoadOf(vt))) || DominatedByExt(a.Instr, CmpCond(token.GEQ, SameExpr(v), IsLoadOf(vt)))
 }
